@@ -38,9 +38,25 @@ class State:
         self.attached = False
         self.missing = []  # monitored attributes that no longer exist
         self.enabled = True
+        self.trace = None  # list of (operation, outcome, result digest) of outermost monitored calls while tracing
 
 
 S = State()
+
+
+def _result_digest(x, depth=0):
+    """representation independent of object identity, for the history-independence monitor"""
+    from .lib import digest
+
+    if _is_curve(x):
+        return ("curve",) + curve_digest(x)
+    if _is_kv(x):
+        return ("kv", kv_digest(x))
+    if isinstance(x, (list, tuple)) and depth < 3:
+        return tuple(_result_digest(y, depth + 1) for y in x[:64])
+    if x is None or isinstance(x, (bool, int, float, str)) or type(x).__module__ in ("fractions", "numpy"):
+        return digest(x)
+    return ("obj", type(x).__name__)
 
 # ------------------------------------------------------------------ M1
 CURVE_MUTATORS = [
@@ -146,6 +162,7 @@ def _wrap(name, fn, mutating, has_self=True):
             recv, pre_recv, pre_ops = None, None, []
         S.depth += 1
         outcome = "ok"
+        result = None
         try:
             result = fn(*args, **kwargs)
             return result
@@ -159,6 +176,11 @@ def _wrap(name, fn, mutating, has_self=True):
             S.depth -= 1
             S.events[(name, outcome)] += 1
             S.tail.append(f"{name}:{outcome}")
+            if S.trace is not None:
+                try:
+                    S.trace.append((name, outcome, _result_digest(result), _snap(recv)[1] if recv is not None and _snap(recv) else None))
+                except Exception as e:
+                    S.trace.append((name, outcome, "digest-error " + type(e).__name__, None))
             try:
                 _post(name, mutating, recv, pre_recv, pre_ops, outcome)
             except Exception as e:  # the monitor must never change behaviour
